@@ -25,7 +25,7 @@ RULE = ("(a) every nested list with <= N nodes over the atoms {1, b'a', 1.5}; (b
         "around SIZE_LIMIT, in 3 contexts, whole / every 1-cut / byte-at-a-time.  non-trivial = a cut strictly inside "
         "an item (prefix, payload or float), a refusal, or a limit-boundary acceptance")
 BOUNDS = {"quick": "shapes <= 5 nodes; all compositions for streams <= 10 bytes, 2-cuts for streams <= 20 bytes; SIZE_LIMIT string with cuts near its frame boundaries",
-          "thorough": "shapes <= 6 nodes; all compositions <= 12 bytes; 2-cuts for streams <= 80 bytes; 3-cuts for streams <= 20 bytes"}
+          "thorough": "shapes <= 6 nodes; all compositions <= 12 bytes; 2-cuts for streams <= 40 bytes; 3-cuts for streams <= 16 bytes"}
 ASSUMPTIONS = [
     "the supported integer range is the one implied by the decoder's prefix limit: |n| <= 2**(7*prefixLimit) - 1",
     "size limits are banana.SIZE_LIMIT for string lengths and list counts (read from the module, not patched)",
@@ -176,11 +176,11 @@ def plans(n, tier, near=None):
     if n <= 4000:
         for p in range(1, n):
             yield (p,)
-        lim2 = 20 if tier == "quick" else 80
+        lim2 = 20 if tier == "quick" else 40
         if n <= lim2:
             for pos in itertools.combinations(range(1, n), 2):
                 yield pos
-        if tier == "thorough" and n <= 20:
+        if tier == "thorough" and n <= 16:
             for pos in itertools.combinations(range(1, n), 3):
                 yield pos
         yield tuple(range(1, n))
